@@ -1308,6 +1308,8 @@ func (x *Exec) lookup(fr *Frame, st *State, in *ssa.Lookup) Val {
 			out.C = append(out.C, UF("map."+typeKey(mt)+c.Path, c.Sort, m.C[0], key.C[0]))
 		}
 		okT := UF("map."+typeKey(mt)+".ok", BoolSort, m.C[0], key.C[0])
+		// a nil map holds no key
+		st.assume(Implies(Eq(m.C[0], IntConst(0)), Not(okT)))
 		x.assumeWF(st, out)
 		if in.CommaOk {
 			z := zeroVal(mt.Elem())
